@@ -667,13 +667,13 @@ func (h *H) wireView() *cluster.ClusterView {
 				key = ids[r.Intn(len(ids))] // key != state ID
 			}
 			v.Members[key] = &cluster.NodeState{ID: id, Address: "w-" + id,
-				Generation: []int{1, 1, 2, 3, 0, -1, 1<<31 - 1}[r.Intn(7)],
-				Timestamp:  pick64(r, 1, 2, 3, T0, -7, 1<<63-1, -1<<63),
-				SeqNo:      uint64(r.Intn(3)),
-				Status:     cluster.MemberStatus([]int{0, 1, 1, 2, 4, 7, 9, -1}[r.Intn(8)]),
-				LastSeen:   pick64(r, 0, 5, T0),
+				Generation:   []int{1, 1, 2, 3, 0, -1, 1<<31 - 1}[r.Intn(7)],
+				Timestamp:    pick64(r, 1, 2, 3, T0, -7, 1<<63-1, -1<<63),
+				SeqNo:        uint64(r.Intn(3)),
+				Status:       cluster.MemberStatus([]int{0, 1, 1, 2, 4, 7, 9, -1}[r.Intn(8)]),
+				LastSeen:     pick64(r, 0, 5, T0),
 				LogicalClock: []uint64{0, 1, 1, 2, 3, 1<<64 - 1}[r.Intn(6)],
-				Labels:     map[string]string{"datacenter": "w"}}
+				Labels:       map[string]string{"datacenter": "w"}}
 		}
 		if r.Chance(1, 2) {
 			vv[id] = []uint64{0, 1, 2, 3, maxC, maxC - 1}[r.Intn(6)]
@@ -847,18 +847,19 @@ func main() {
 	o.Info["exhaustive_small_domain"] = fmt.Sprintf("%d views over ids {a,b}: per id absent|(1,1,Up)|(1,1,Suspect)|(1,2,Up)|(2,1,Up), 4 vector/epoch variants; every ordered pair x 3 strategies (skew setting rotating in quick, all 3 in thorough) against the model; both directions compared for commutativity", len(D))
 
 	// triples of the small domain: all 6 orders x 2 shapes on the implementation
-	nTriples := 1500
+	nTriples, emitEvery := 2000, 4
 	if thorough {
-		nTriples = 60000
+		nTriples, emitEvery = 200000, 16
 	}
 	for t := 0; t < nTriples; t++ {
-		h.triple([3]*cluster.ClusterView{D[h.r.Intn(len(D))], D[h.r.Intn(len(D))], D[h.r.Intn(len(D))]}, t%4 == 0)
+		h.triple([3]*cluster.ClusterView{D[h.r.Intn(len(D))], D[h.r.Intn(len(D))], D[h.r.Intn(len(D))]}, t%emitEvery == 0)
 	}
+	o.Info["small_domain_triples_all_orders"] = nTriples
 
 	// random reachable worlds: nodes with their own views evolving by join / accept / gossip / suspect / restart
 	nWorlds := 150
 	if thorough {
-		nWorlds = 6000
+		nWorlds = 10000
 	}
 	if f.N > 0 {
 		nWorlds = f.N
@@ -878,7 +879,7 @@ func main() {
 	// non-member vector keys, tiny MaxVersionVectorEntries, out-of-range strategy, negative skew
 	nWire := 400
 	if thorough {
-		nWire = 15000
+		nWire = 25000
 	}
 	h.wireOps(nWire)
 
